@@ -31,5 +31,25 @@ def main(argv):
         return 2
     if argv[0] == "unit":
         return dev_unit(argv[1], argv[2:])
+    if argv[0] == "l3dev":
+        from . import l3
+        D.ensure_tools()
+        descs = getattr(l3, argv[1])()
+        if len(argv) > 2 and not argv[2].startswith("-"):
+            descs = [d for d in descs if d["name"] in argv[2].split(",")]
+        rc = 0
+        for u in l3.run_descs(descs, canaries=(("head", "loop_head", "after_loop") if "--canary" in argv else ())):
+            bad = [o for o in u.obligations if not o["ok"]]
+            print(f"{u.name}: {u.status} {u.reason[:300]} fns={len(u.obligations)} wall={u.wall_s:.1f}s smt={u.smt_ms}ms canaries={u.canaries}")
+            for f in u.failures[:8]:
+                print(f"   !! {f['fn']}: {f['message']} @{f['line']}: {f['text'][:200]}")
+            if u.status == "undecided" and hasattr(u, "stderr"):
+                for ln in u.stderr.splitlines():
+                    try:
+                        print(json.loads(ln).get("rendered", "")[:1200])
+                    except Exception:
+                        pass
+            rc = max(rc, {"ok": 0, "violation": 1, "undecided": 2}[u.status])
+        return rc
     from . import props
     return props.main(argv)
